@@ -52,9 +52,11 @@ def known_findings():
         for ln in open(p):
             ln = ln.strip()
             if ln.startswith("known:"):
-                m = re.match(r"known:\s+property=(\S+)\s+obligation=(\S+)\s+(.*)", ln)
+                # `observed~REGEX` (optional, no spaces): the finding is this one only while what the stand-in observes
+                # matches; the same stand-in failing in another way is reported as a violation
+                m = re.match(r"known:\s+property=(\S+)\s+obligation=(\S+)\s+(?:observed~(\S+)\s+)?(.*)", ln)
                 if m:
-                    known.append({"property": m.group(1), "obligation": m.group(2), "what": m.group(3)})
+                    known.append({"property": m.group(1), "obligation": m.group(2), "observed_rx": m.group(3), "what": m.group(4)})
             elif ln.startswith("fixed:"):
                 fixed.append(ln)
     return known, fixed
@@ -460,7 +462,8 @@ def main():
     bounded_known = []
     for (u, b, obs) in bounded_fail:
         oid = "%s.bounded[%s]" % (u.unit, b["name"])
-        kh = [k for k in known if k["property"] == prop and obligation_match(k["obligation"], oid)]
+        kh = [k for k in known if k["property"] == prop and obligation_match(k["obligation"], oid)
+              and (not k.get("observed_rx") or re.search(k["observed_rx"], str(obs.get("why", "")), re.S))]
         if kh:
             lines.append("KNOWN-FINDING: property=%s %s [%s]" % (prop, kh[0]["what"], oid))
             bounded_known.append(oid)
